@@ -232,6 +232,11 @@ def fresh_symbol(model: RefDir, prefix, n, r):
         # characters that Unicode normalisation would rewrite (OHM SIGN,
         # ANGSTROM SIGN, a decomposed A-ring): a symbol is taken as given
         return ['\u2126', '\u212b', 'A\u030a', '\u212a'][r // 12 % 4] + base
+    if k == 9 and r // 12 % 2 == 0:
+        # an ISO 4217 code as symbol of a unit that is no currency
+        code = ISO_CODES[r // 24 % len(ISO_CODES)]
+        if code not in model.units:
+            return code
     if k == 6 and model.uorder:
         # differs from an existing symbol only by case
         other = model.uorder[r % len(model.uorder)].swapcase()
@@ -393,6 +398,30 @@ def resolve(model: RefDir, op):
                              [1, -1, -1, 2, -2, 1][(r[10] + j) % 6]])
         target = tn
         expect = 'accept'
+        near = [d for d in getattr(model, 'term_defs', [])
+                if d['type'] in model.types and
+                all(s in model.units for s, _ in d['items'])]
+        if kind == 'wrong_dim_term' and near and r[9] % 3 == 0:
+            # a near miss of a definition that was accepted before: the
+            # same term with one exponent off by one (-1 / -2 in
+            # particular), declared for the same type - another dimension
+            d = near[r[1] % len(near)]
+            items = [list(it) for it in d['items']]
+            pos = [j for j, (_s, e) in enumerate(items) if e in (-1, -2)] \
+                or list(range(len(items)))
+            j = pos[r[2] % len(pos)]
+            items[j][1] = {-1: -2, -2: -1, 1: 2, 2: 1}.get(
+                items[j][1], items[j][1] + 1)
+            dim = {}
+            for s, e in items:
+                dim = dim_add(dim, model.types[model.units[s]['type']]['dim'],
+                              e)
+            if dim_key(dim) != dim_key(model.types[d['type']]['dim']):
+                return {'a': 'term_unit', 'type': d['type'],
+                        'sym': fresh_symbol(model, 'u', n, deco),
+                        'items': items, 'k': d['k'], 'nums': d['nums'] or [],
+                        'spell': d['spell'] or 0, 'expect': 'reject',
+                        'bad': 'wrong_dimension', 'near_miss': True}
         if kind == 'wrong_dim_term':
             others = [x for x in model.types_with_ref() if x != tn]
             target = _pick(others, r[8])
@@ -489,6 +518,10 @@ def resolve(model: RefDir, op):
                 'expect': 'accept'}
     if kind == 'currency_reg':
         code = ISO_CODES[r[0] % len(ISO_CODES)]
+        if code in model.units and model.units[code]['type'] != 'Money':
+            # the code is the symbol of a unit of another type
+            return {'a': 'currency_reg', 'code': code, 'expect': 'reject',
+                    'bad': 'dup_symbol'}
         return {'a': 'currency_reg', 'code': code, 'expect': 'accept'}
     if kind == 'currency_new':
         minor = [None, 0, 2, 3][r[0] % 4]
@@ -700,6 +733,10 @@ def apply(model: RefDir, act, info=None):
         model.add_unit(act['sym'], act['type'],
                        model.term_factor(act['items'], k), 'term',
                        bvec=bvec, num=num)
+        if not hasattr(model, 'term_defs'):
+            model.term_defs = []
+        model.term_defs.append({kk: act.get(kk) for kk in
+                                ('type', 'items', 'k', 'nums', 'spell')})
     elif a == 'derive_unit':
         t = model.types[act['type']]
         items = [(u, e) for u, (_, e) in zip(act['units'], t['items'])]
